@@ -19,6 +19,11 @@ BW(reqs) == [op |-> "BatchWrite", c |-> "c1", reqs |-> reqs]
 Failing(k) == {
   Put(T1, k @@ [g |-> Num(1)]),                                           \* index key of the wrong type (hash of gix / gsx, no s)
   Put(T1, k @@ [g |-> Num(1), s |-> S1(49)]), Put(T1, k @@ [g |-> S1(112), s |-> Num(1)]),   \* gsx: hash / range ill-typed
+  Put(T1, k @@ [e |-> Num(1)]), Put(T1, k @@ [e |-> Num(1), s |-> S1(49)]), Put(T1, k @@ [s |-> Num(1)]),   \* esx(e, s): the only index on e;
+  Put(T1, k @@ [e |-> S1(112), s |-> Num(1)]),                            \*   hash ill-typed without / with the sort attribute, sort attribute alone
+  Upd(T1, k, SetU("e", Val(":n")), One(":n", Num(7))), Upd(T1, k, SetU("s", Val(":n")), One(":n", Num(7))),
+  Upd(T1, k, [NoUpd EXCEPT !.set = <<[p |-> P("v"), v |-> Val(":m")], [p |-> P("e"), v |-> Val(":n")]>>],
+      [x \in {":n", ":m"} |-> IF x = ":n" THEN Num(7) ELSE Num(8)]),        \* a valid SET next to the one that breaks the index key
   Put(T1, k @@ [l |-> Num(1)]), Put(T1, k @@ [g |-> S1(112), l |-> Bool(TRUE)]),              \* local index sort key ill-typed
   Upd(T1, k, SetU("l", Val(":n")), One(":n", Num(7))),
   Upd(T1, k, SetU("g", Val(":n")), One(":n", Num(7))),                    \* update makes the index key ill-typed
@@ -39,9 +44,10 @@ Failing(k) == {
 AD(n) == [n |-> n, ty |-> "S"]
 \* hash-only table would not allow a local index: the table has a sort key r (always "1" in this model)
 CT == [op |-> "CreateTable", c |-> "c1", t |-> T1, hash |-> [n |-> "h", ty |-> "S"], range |-> [some |-> FALSE, n |-> "", ty |-> ""],
-       billing |-> "PAY_PER_REQUEST", thr |-> FALSE, attrs |-> <<AD("h"), AD("g"), AD("s"), AD("l")>>,
+       billing |-> "PAY_PER_REQUEST", thr |-> FALSE, attrs |-> <<AD("h"), AD("g"), AD("s"), AD("l"), AD("e")>>,
        gsis |-> <<[name |-> "gix", hash |-> "g", range |-> [some |-> FALSE, n |-> ""], proj |-> "ALL", thr |-> FALSE],
-                  [name |-> "gsx", hash |-> "g", range |-> [some |-> TRUE, n |-> "s"], proj |-> "ALL", thr |-> FALSE]>>,
+                  [name |-> "gsx", hash |-> "g", range |-> [some |-> TRUE, n |-> "s"], proj |-> "ALL", thr |-> FALSE],
+                  [name |-> "esx", hash |-> "e", range |-> [some |-> TRUE, n |-> "s"], proj |-> "ALL", thr |-> FALSE]>>,
        lsis |-> <<[name |-> "lix", hash |-> "h", range |-> [some |-> TRUE, n |-> "l"], proj |-> "ALL"]>>]
 SetupDef == << CT >>
 MenuDef == SetToSeq(
